@@ -256,6 +256,19 @@ def _relevant_liveness(fn):
     return live_in
 
 
+def _drop_elab(fn, t):
+    """A switch whose every target only clears drop flags / drops / jumps: drop elaboration, not a `match`."""
+    for tb in set([b for _, b in t["targets"]] + [t["otherwise"]]):
+        b = fn.blocks[tb]
+        for s_ in b["stmts"]:
+            rv = s_["rv"]
+            if not (rv["k"] == "use" and "c" in rv["op"] and rv["op"]["c"].get("ty") == "bool"):
+                return False
+        if b["term"]["k"] not in ("drop", "goto", "return", "resume", "unreachable"):
+            return False
+    return True
+
+
 def _retarget(t, mapping):
     """Copy of terminator t with successor blocks renamed through mapping (old -> new).  A switch whose variant
     is known on this path keeps a single successor and becomes a goto."""
@@ -343,7 +356,7 @@ def threaded(fn, limit_factor=4):
             return fn
         if st in resolved_at and nbk["term"].get("threaded_switch"):
             l_, v_, kind_ = resolved_at[st]
-            nbk["term"]["threaded_switch"] = {"local": l_, "val": v_, "kind": kind_}
+            nbk["term"]["threaded_switch"] = {"local": l_, "val": v_, "kind": kind_, "drop_elab": _drop_elab(fn, t)}
         new_blocks.append(nbk)
     raw = dict(fn.raw)
     raw["blocks"] = new_blocks
